@@ -51,6 +51,33 @@ def configs_for(prop, tier):
         Q(A, [p1, p2], force_merge=True)
         Q(C, [(1, 'feature/a', 'development/5.1'), (2, 'bugfix/b', 'development/5')])
         Q(E, [(1, 'bugfix/s', 'stabilization/4.3.18'), (2, 'bugfix/b', 'development/4.3')])
+    if prop == 'C03':
+        # direct merges only happen in skip_queue_when_not_needed mode, after
+        # the in-sync / build / is_needed checks
+        def Sk(shape, pr, **o):
+            cfg.append(dict(sc='S', shape=shape, prs=[pr], opts=o))
+        Sk(F, p1)
+        Sk(F, p1, no_octopus=True)
+        Sk(D, (1, 'feature/a', 'development/10.0'))
+        Sk(A, p1, no_octopus=True)
+        Sk(E, (1, 'bugfix/s', 'stabilization/4.3.18'), no_octopus=True)
+        if tier == 'thorough':
+            Sk(A, p1)
+            Sk(B, ps, no_octopus=True)
+        return cfg
+    if prop == 'C02':
+        # the server refuses any single ref (symbolic, per ref) inside a push
+        Q(F, [p1], reject='all')
+        Q(A, [p1], reject='all')
+        Q(B, [ps], reject='all')
+        Dm(F, p1, no_octopus=True, reject='all')
+        if tier == 'thorough':
+            Dm(E, (1, 'bugfix/s', 'stabilization/4.3.18'), no_octopus=True, reject='all')
+    if prop == 'C08':
+        for c in list(cfg):
+            if c['prs'] and len(c['prs']) == 1:
+                cfg.append(dict(sc='Q', shape=c['shape'], prs=c['prs'],
+                                opts=dict(c['opts'], interfere=True)))
     # direct merges (no queue / skip_queue_when_not_needed)
     for no_oct in (False, True):
         Dm(F, p1, no_octopus=no_oct)
@@ -69,6 +96,8 @@ def natoms_for(c):
     shape, prs = c['shape'], [PR(*p) for p in c['prs']]
     if c['sc'] == 'Q':
         n = len(GF.queue_refs(shape, prs))
+    elif c['sc'] == 'S':
+        n = len(GF.skip_queue_refs(shape, prs[0]))
     else:
         n = len(GF.direct_refs(shape, prs[0]))
     return min(n + 1, 18)
@@ -80,7 +109,7 @@ def monitors_for(prop, c, ctx_flags):
     if prop == 'C01':
         return [GF.mon_inclusion(shape)]
     if prop == 'C02':
-        return [GF.mon_all_or_none(shape, prs), GF.mon_inclusion(shape)]
+        return [GF.mon_all_or_none(shape, prs, c['sc']), GF.mon_inclusion(shape)]
     if prop == 'C03':
         byp = z3.BoolVal(bool(c['opts'].get('force_merge')))
         return [GF.mon_status(shape, byp)]
@@ -95,7 +124,7 @@ def pre_for(prop, c):
 
     def pre(ctx, repo):
         if prop == 'C02':
-            GF.assume_all_or_none(ctx, repo, shape, prs)
+            GF.assume_all_or_none(ctx, repo, shape, prs, c['sc'])
     return pre
 
 
@@ -107,19 +136,42 @@ def make_harness_factory(prop, tier, seed, sample_mod):
 
         def h(ctx):
             mons = monitors_for(prop, c, None)
+            extra = {}
             if c['sc'] == 'Q':
+                hook = None
+                if c['opts'].get('interfere'):
+                    hook = GF.make_interference(None, [p.src for p in prs])
                 repo, host, out = GF.scenario_merge_queues(
                     ctx, shape, prs, nat, mons, pre=pre_for(prop, c),
                     force_merge=c['opts'].get('force_merge', False),
-                    reject=c['opts'].get('reject'))
+                    reject=c['opts'].get('reject'), interfere=hook,
+                    nfresh=5 if hook else 4)
                 scen = 'merge_queues'
+                if hook:
+                    extra['third_party'] = hook.state['log']
+            elif c['sc'] == 'S':
+                repo, host, out = GF.scenario_skip_queue(
+                    ctx, shape, prs[0], nat,
+                    lambda byp: [GF.mon_status(shape, byp)], pre=pre_for(prop, c),
+                    no_octopus=c['opts'].get('no_octopus', False))
+                scen = 'skip_queue'
             else:
                 repo, out = GF.scenario_direct_merge(
                     ctx, shape, prs[0], nat, mons, pre=pre_for(prop, c),
                     no_octopus=c['opts'].get('no_octopus', False),
                     reject=c['opts'].get('reject'))
                 scen = 'direct_merge'
-            vio = [GF.cex_data(scen, shape, prs, v, **c['opts']) for v in repo.violations]
+            vio = []
+            for v in repo.violations:
+                d = GF.cex_data(scen, shape, prs, v, **c['opts'])
+                d.update(extra)
+                if d.get('third_party'):
+                    d['third_party'] = [
+                        [k, r, w, None if a is None else model_value(v.model, a)]
+                        for (k, r, w, a) in d['third_party']]
+                if scen == 'skip_queue':
+                    d['params']['bypass'] = bool(model_value(v.model, z3.Bool('bypass_build_status')))
+                vio.append(d)
             moved = [d for d in shape if d in repo.remote and
                      not z3.eq(z3.simplify(repo.remote[d]), z3.simplify(repo.pre_remote[d]))]
             res = dict(out=out, vio=vio, nops=len(repo.remote_ops), moved=len(moved),
@@ -127,6 +179,7 @@ def make_harness_factory(prop, tier, seed, sample_mod):
             # differential sample: witness model -> expected final relation
             key = hashlib.sha1(repr(ctx.trace).encode()).digest()[0]
             if (not vio and repo.conflicts_taken == 0 and repo.differs_taken == 0
+                    and scen != 'skip_queue' and not extra
                     and (key + seed) % sample_mod == 0):
                 r, m = ctx.sat_model(repo.replay_prefs())
                 if r == 'sat':
@@ -152,7 +205,8 @@ def differential(d):
     data = d['data']
     w = data['world']
     prs = [PR(*x) for x in data['prs']]
-    world = RealWorld(w['anc'], w['refs'], w.get('tags'))
+    reject = [r for r, b in w.get('rejected', {}).items() if b and not r.startswith('tag:')]
+    world = RealWorld(w['anc'], w['refs'], w.get('tags'), reject=reject)
     try:
         host = RealHost(world, w['status'], prs)
         repo = world.repository()
@@ -187,7 +241,16 @@ def differential(d):
 
 def signature(prop, data):
     """Shape of a violation (used to match known findings)."""
-    return '%s: %s [%s]' % (prop, data['label'], data['scenario'])
+    import re
+    label = re.sub(r'(development|stabilization|hotfix)/[0-9.]+', '<dst>', data['label'])
+    label = re.sub(r'PR \d+', 'PR <n>', label)
+    label = re.sub(r'foreign ref \S+', 'foreign ref <ref>', label)
+    opts = ','.join('%s=%s' % kv for kv in sorted(data['params'].items())
+                    if kv[0] in ('no_octopus',) and kv[1])
+    tp = data.get('third_party')
+    if tp:
+        opts += (',' if opts else '') + 'third-party %s' % tp[0][0]
+    return '%s [%s%s]' % (label, data['scenario'], (' ' + opts) if opts else '')
 
 
 def run(rep, prop, extra_configs=None, sample_mod=None):
@@ -215,6 +278,9 @@ def run(rep, prop, extra_configs=None, sample_mod=None):
         'bert_e.BertE.update_queue_status/add_merged_pr', 'pr_utils.notify_user']
     try:
         cfgs = configs_for(prop, rep.tier) + list(extra_configs or [])
+        import os
+        if os.environ.get('VERIF_ONLY'):
+            cfgs = [cfgs[int(i)] for i in os.environ['VERIF_ONLY'].split(',')]
         if sample_mod is None:
             sample_mod = 16 if rep.tier == 'quick' else 8
         make = make_harness_factory(prop, rep.tier, rep.seed, sample_mod)
@@ -242,7 +308,7 @@ def run(rep, prop, extra_configs=None, sample_mod=None):
         if c['sc'] == 'Q' and c['prs'] and not any(r['out'] == 'Merged' and r['moved']
                                                    for _, r in results):
             rep.error('vacuity: no merging path in config %s' % name)
-        if c['sc'] == 'D' and not any(r['out'] == 'merged' for _, r in results):
+        if c['sc'] in 'DS' and not any(r['out'] == 'merged' for _, r in results):
             rep.error('vacuity: no merging path in config %s' % name)
     rep.extra['outcomes'] = {'%s:%s' % k: v for k, v in sorted(outcomes.items())}
     # differential validation of the git model on the sampled witnesses
@@ -251,7 +317,8 @@ def run(rep, prop, extra_configs=None, sample_mod=None):
     probs = common.pmap(differential, dsel) if dsel else []
     for d, pr in zip(dsel, probs):
         if pr:
-            rep.error('symgit differs from /usr/bin/git on a sampled path: %s' % pr[:3])
+            if len(rep.errors) < 5:
+                rep.error('symgit differs from /usr/bin/git on a sampled path: %s' % pr[:3])
         else:
             rep.validated += 1
     if dsel:
@@ -266,8 +333,10 @@ def run(rep, prop, extra_configs=None, sample_mod=None):
         reproduced = None
         tried = 0
         # prefer candidates that a real repository can realise
-        vs.sort(key=lambda v: (v['conflicts'] + v['differs'], not v['prefs_ok']))
-        for v in vs[:6]:
+        vs.sort(key=lambda v: (v['conflicts'] + v['differs'],
+                               not any(v['world'].get('rejected', {}).values()),
+                               not v['prefs_ok']))
+        for v in vs[:8]:
             if v['conflicts'] or v['differs']:
                 continue
             tried += 1
